@@ -88,6 +88,10 @@ def _case(draw):
             entries.append(['s', 'scalar', draw(st.integers(0, 9))])
             files.append(entries)
         case['files'] = files
+        # the including mapping may carry a priority tag (the content placed under the key takes it, like anything written there),
+        # and a later regular stage writes the same paths
+        case['wrap'] = draw(st.sampled_from([None, None, -1, 1]))
+        case['post'] = draw(st.booleans())
     elif mode == 'keyinc':
         case['key'] = draw(st.sampled_from(['k', 'a', 'inc']))
         case['dir'] = draw(st.sampled_from(DIRS))
@@ -333,17 +337,25 @@ def run_case(case):
                 rel = os.path.join(d, f'q{i}.yaml') if d else f'q{i}.yaml'
                 lay.write(os.path.join(lay.tree, rel), t)
                 names.append(rel)
-            pre_text = tdoc.render(tdoc.from_plain({key: case['pre'], 'zz': 1}))
+            wrap, post = case.get('wrap'), case.get('post')
+            pre_text = tdoc.render(tdoc.from_plain({'w': {key: case['pre']}, 'zz': 1} if wrap else {key: case['pre'], 'zz': 1}))
             inc = names[0] if len(names) == 1 and len(case['files'][0]) % 2 else '[' + ', '.join(names) + ']'
-            body = f'---\n{key}: !include {inc}\n'
+            wtag = {1: '!force', -1: '!weak'}.get(wrap)
+            body = f'---\nw: {wtag}\n  {key}: !include {inc}\n' if wrap else f'---\n{key}: !include {inc}\n'
             master = os.path.join(lay.tree, 'master.yaml')
             lay.write(master, body)
+            post_texts = [tdoc.render(tdoc.from_plain({'w': {key: {'s': 99, 'lst': [99]}}} if wrap else {key: {'s': 99, 'lst': [99]}}))] if post else []
             inner_st, inner = _build_in(lay.cwd, lambda: Config.build(*ftexts, raw_yaml=True))
-            layout_txt = f'\nearlier stage:\n{pre_text}\nmaster file:\n{body}\nincluded files:\n' + '\n'.join(ftexts)
-            status, got = _build_in(lay.cwd, lambda: Config.build(pre_text, master, raw_yaml=[True, False]))
+            layout_txt = f'\nearlier stage:\n{pre_text}\nmaster file:\n{body}\nincluded files:\n' + '\n'.join(ftexts) + ('\nlater stage:\n' + post_texts[0] if post else '')
+            status, got = _build_in(lay.cwd, lambda: Config.build(pre_text, master, *post_texts, raw_yaml=[True, False] + [True] * len(post_texts)))
+            if wrap:
+                labels.add('include-below-a-priority-tag')
             if inner_st == 'ok':
-                placed = tdoc.render(tdoc.from_plain({key: O.to_builtin(inner)}))
-                want_st, want = _build_in(lay.cwd, lambda: Config.build(pre_text, placed, raw_yaml=True))
+                pl = tdoc.from_plain({key: O.to_builtin(inner)})
+                if wrap:
+                    pl = tdoc.mp([('w', tdoc.mp(pl['items'], prio=wrap, mdstyle='short'))])
+                placed = tdoc.render(pl)
+                want_st, want = _build_in(lay.cwd, lambda: Config.build(pre_text, placed, *post_texts, raw_yaml=True))
                 if want_st == 'ok':
                     if status != 'ok' or O.canon(O.to_builtin(got)) != O.canon(O.to_builtin(want)):
                         raise Violation(f'C06: {key}: !include .. gives {got!r}; placing the merged content of the files under the key gives '
